@@ -65,8 +65,9 @@ def _data_history(ctx, rid, repo):
                 "measurements": [{"name": "meas", "config": {"poi": "mu", "parameters": []}}], "version": "1.0.0"}
         ws = w.new(wsc, [spec], {"validate": False})
         aux = [at("aux0"), at("aux1")]
-        model = Obj("model", {"config": Obj("config", {"channels": ["aa", "mm", "zz"], "auxdata": aux})})
-        main = ["a0", "m0", "m1", "z0", "z1"]
+        # the model was made from this workspace with channel `mm` pruned away by a patch: ITS channels decide, not the workspace's
+        model = Obj("model", {"config": Obj("config", {"channels": ["aa", "zz"], "auxdata": aux})})
+        main = ["a0", "z0", "z1"]
         plan = [("first call (auxiliary data included by default)", {}, main + ["aux0", "aux1"]), ("second call, same arguments", {}, main + ["aux0", "aux1"]), ("third call, include_auxdata=False", {"include_auxdata": False}, main)]
         bad = None
         for lab, kw, want in plan:
@@ -74,7 +75,7 @@ def _data_history(ctx, rid, repo):
             got = [str(to_poly(x)) for x in out] if isinstance(out, (list, tuple)) else repr(out)
             stored = {k: [str(to_poly(x)) for x in v] for k, v in (ws.attrs.get("observations") or {}).items()}
             if got != want:
-                bad = f"{lab}: the data vector is {got}, the model's channel order (aa, mm, zz) and its auxiliary data give {want}"
+                bad = f"{lab}: the data vector is {got}, the model's channels (aa, zz; the workspace also has mm) and its auxiliary data give {want}"
                 break
             if stored != {"mm": ["m0", "m1"], "zz": ["z0", "z1"], "aa": ["a0"]} or [str(x) for x in aux] != ["aux0", "aux1"]:
                 bad = f"{lab}: the call changed what the workspace / the model store (observations now {stored}, auxiliary data {[str(x) for x in aux]}): the accumulator is not a fresh list"
@@ -82,7 +83,7 @@ def _data_history(ctx, rid, repo):
         if bad:
             ctx.violated(rid, wd, "Workspace.data history", f"Workspace.data does not hand out the observations in the model's order (or is not repeatable): {bad}", expected="observations of config.channels in that order (+ config.auxdata iff requested), stores untouched", found=bad)
         else:
-            ctx.holds(rid, f"{WS}::Workspace.data [3 calls, observations listed mm, zz, aa; model channels aa, mm, zz]", "model order, auxiliary data iff requested, stores untouched")
+            ctx.holds(rid, f"{WS}::Workspace.data [3 calls, observations listed mm, zz, aa; model channels aa, zz]", "model order, auxiliary data iff requested, stores untouched")
     except RaisedInFragment as e:
         ctx.violated(rid, wd, "Workspace.data history", f"Workspace.data raises {e.exc_name} for a model whose channels all have observations")
     except (Undecided, KeyError, TypeError, ValueError, IndexError, AttributeError) as e:
